@@ -1276,6 +1276,11 @@ func (it *Interp) call(call *ast.CallExpr) Value {
 					if cv, isC := t.IsConst(); isC && cv.IsInt() {
 						return t // int(3.0) = 3
 					}
+					if cv, isC := t.IsConst(); isC {
+						// int(6.38) = 6, int(-6.38) = -6: truncation towards zero
+						q := new(big.Int).Quo(cv.Num(), cv.Denom())
+						return sym.Const(new(big.Rat).SetInt(q))
+					}
 					return sym.Fn("trunc", t)
 				}
 			}
